@@ -34,8 +34,9 @@ pub enum Anchor {
     /// immediately before / after the k-th loop statement
     LoopBefore(usize),
     LoopAfter(usize),
-    After(String),
-    Before(String),
+    /// snippet, and which innermost match in source order (None: it must be the only one)
+    After(String, Option<usize>),
+    Before(String, Option<usize>),
 }
 
 #[derive(Clone, Debug)]
@@ -70,6 +71,17 @@ fn unquote(s: &str, path: &str, ln: usize) -> String {
         s[1..s.len() - 1].replace("\\\"", "\"")
     } else {
         die(&format!("{}:{}: expected a quoted snippet", path, ln))
+    }
+}
+
+/// `"snippet" #k` => ("snippet", Some(k))
+fn split_nth<'a>(s: &'a str, path: &str, ln: usize) -> (&'a str, Option<usize>) {
+    let t = s.trim();
+    if let Some(p) = t.rfind("\" #") {
+        let n: usize = t[p + 3..].trim().parse().unwrap_or_else(|_| die(&format!("{}:{}: bad match ordinal", path, ln)));
+        (&t[..p + 1], Some(n))
+    } else {
+        (t, None)
     }
 }
 
@@ -170,9 +182,11 @@ pub fn parse(text: &str, path: &str) -> Contracts {
                         _ => die(&format!("{}:{}: @insert loop <k> begin|end|before|after", path, ln)),
                     }
                 } else if a.starts_with("after ") {
-                    Anchor::After(unquote(&a["after ".len()..], path, ln))
+                    let (q, n) = split_nth(&a["after ".len()..], path, ln);
+                    Anchor::After(unquote(q, path, ln), n)
                 } else if a.starts_with("before ") {
-                    Anchor::Before(unquote(&a["before ".len()..], path, ln))
+                    let (q, n) = split_nth(&a["before ".len()..], path, ln);
+                    Anchor::Before(unquote(q, path, ln), n)
                 } else {
                     die(&format!("{}:{}: unknown @insert anchor `{}`", path, ln, a))
                 };
